@@ -345,6 +345,12 @@ def c11(idx: Index, rep: Report, tier: str) -> None:
 
 def c12(idx: Index, rep: Report, tier: str) -> None:
     nn = idx.func("model.walkers.dnf.Nnf.get_nnf_expression")
+    from ..roles import unpack_targets, with_roles
+
+    tup = unpack_targets(nn.node, lambda v: isinstance(v, ast.Call) and call_name(v) == "pop")
+    if tup is None or not tup.elts or not isinstance(tup.elts[0], ast.Name):
+        raise AnalysisError("anchor vanished: `polarity, expression, status = <stack>.pop()` in Nnf.get_nnf_expression")
+    nn = with_roles(nn, {tup.elts[0].id: "p"})
     rule = "C12.2 polarity-conditionals-complementary"
     n = 0
     for e in walk_no_nested(nn.node):
